@@ -66,6 +66,9 @@ class Model:
         if "time" in trigs:
             extras = r.choice([[], ["startup"], ["shutdown"], ["startup", "shutdown"]])
         inst = {"gen": self.gen, "name": name, "trigs": sorted(trigs), "extras": extras, "where": where}
+        if "time" in trigs and extras and where in ("a.py", "b.py") and r.random() < 0.3:
+            # @time_trigger("startup") / ("shutdown") / both, without any periodic specification
+            inst["noperiod"] = True
         if where in ("a.py", "b.py") and r.random() < 0.25:
             # the file defines the function twice: the first definition is dead as soon as the second one replaces it
             self.gen += 1
@@ -78,6 +81,7 @@ class Model:
         if self.rng.random() < 0.15:
             inst["victim"] = True
             inst["extras"] = []
+            inst.pop("noperiod", None)
             inst.pop("shadow", None)
             self.gen += 1
             fdict[name + "_k"] = {"gen": self.gen, "name": name + "_k", "trigs": ["time"], "extras": ["startup"], "where": f, "kills": name}
@@ -113,7 +117,7 @@ def render_inst(inst, indent="", name=None):
     if "event" in t:
         out.append(f"{indent}@event_trigger('ev9')")
     if "time" in t:
-        args = ", ".join(repr(x) for x in ["period(now, 5s)"] + inst["extras"])
+        args = ", ".join(repr(x) for x in ([] if inst.get("noperiod") else ["period(now, 5s)"]) + inst["extras"])
         out.append(f"{indent}@time_trigger({args})")
     if "service" in t:
         out.append(f"{indent}@service('pyscript.svc_{inst['name']}')")
@@ -327,10 +331,11 @@ def run_case(case):
             viol.append({"mech": "service_left_registered", "msg": f"after {label}: services of deleted functions still registered: {never}"})
         # trigger tasks
         if legacy:
-            exp_tasks = sum(1 for i in live if set(i["trigs"]) - {"service"})
+            # (a function whose only trigger is a time trigger without a future instant has nothing left to wait for)
+            exp_tasks = sum(1 for i in live if set(i["trigs"]) - {"service"} - ({"time"} if i.get("noperiod") else set()))
             got_tasks = sum(1 for t in snap["pyscript_tasks"] if "trigger_watch" in t)
         else:
-            exp_tasks = sum(("state" in i["trigs"] or "state_multi" in i["trigs"]) + ("time" in i["trigs"]) for i in live)
+            exp_tasks = sum(("state" in i["trigs"] or "state_multi" in i["trigs"]) + ("time" in i["trigs"] and not i.get("noperiod")) for i in live)
             got_tasks = sum(1 for t in snap["pyscript_tasks"] if "_cycle" in t)
         if got_tasks != exp_tasks:
             viol.append({"mech": "trigger_task_residue", "msg": f"after {label}: {got_tasks} trigger tasks, expected {exp_tasks}: {snap['pyscript_tasks']}"})
@@ -484,7 +489,10 @@ def run_case(case):
             if cnt.get("event", 0) != (1 if "event" in t else 0):
                 viol.append({"mech": "live_function_wrong_run_count", "msg": f"{ph['label']}: live {inst} ran {cnt.get('event', 0)}x for the event"})
             nt = cnt.get("time", 0)
-            if ("time" in t and nt not in (1, 2)) or ("time" not in t and nt):
+            if inst.get("noperiod"):
+                if nt:
+                    viol.append({"mech": "live_function_wrong_run_count", "msg": f"{ph['label']}: live {inst} (no periodic time specification) ran {nt}x for time triggers"})
+            elif ("time" in t and nt not in (1, 2)) or ("time" not in t and nt):
                 viol.append({"mech": "live_function_wrong_run_count", "msg": f"{ph['label']}: live {inst} ran {nt}x for time triggers in 5.5 s"})
             if "service" in t:
                 if not ph["called"].get(inst["name"]):
@@ -496,7 +504,7 @@ def run_case(case):
         n = sum(1 for r in runs_all if r["gen"] == gen and r["ttime"] == "startup")
         obs["startup_runs"] += n
         if n != startup_exp.get(gen, 0):
-            viol.append({"mech": "startup_run_count", "msg": f"generation {gen}: {n} startup runs, expected {startup_exp.get(gen, 0)}"})
+            viol.append({"mech": "startup_run_count", "msg": f"generation {gen}: {n} startup runs, expected {startup_exp.get(gen, 0)}; instance {[i for i in list(m.dead.values()) + m.live() if i['gen'] == gen]}"})
     for gen in sorted(set(shutdown_exp) | {r["gen"] for r in runs_all if r["ttime"] == "shutdown"}):
         n = sum(1 for r in runs_all if r["gen"] == gen and r["ttime"] == "shutdown")
         obs["shutdown_runs"] += n
